@@ -103,9 +103,17 @@ def thorough_selftest(prop, repo, rep):
     the rules is measured and recorded; it never changes the verdict on the tree itself."""
     from . import mutate
     from concurrent.futures import ProcessPoolExecutor
+    anchors = set()
+    for line in open(os.path.join(VERIF, 'properties.jsonl')):
+        pj = json.loads(line)
+        if pj['id'] == prop:
+            anchors = set(pj['anchors']['files'])
     muts = []
     for m in mutate.load_catalogue() + mutate.seeded() + mutate.refactorings():
-        if m['kind'] == 'equivalent' or prop in m.get('props', []) or prop in m.get('silent', []):
+        if prop in m.get('props', []) or prop in m.get('silent', []):
+            muts.append(m)
+        elif m['kind'] == 'equivalent' and (mutate.touched_files(m) & anchors):
+            # negative controls that touch a file this property is anchored in
             muts.append(m)
     with ProcessPoolExecutor(max_workers=min(12, max(1, len(muts)))) as ex:
         results = list(ex.map(_eval_mutant, [(m, repo, prop) for m in muts]))
